@@ -1,3 +1,337 @@
-import VncModel.Cursor.Session
+import VncModel.Cursor.ShapeLemmas
+import VncModel.Cursor.Invariant
+/-!
+# C15 — Cursor handling never damages the framebuffer and shows the right cursor
+
+Property theorems only.  Model: `VncModel/Cursor/{Basic,Model,Session}.lean` (helper lemmas:
+`Lemmas`, `ShowHide`, `SessionLemmas`, `ShapeLemmas`, `Invariant`).  Tie: correspondence run
+`harness/c15.c` ⇄ `Driver/C15.lean` (exact, every run) + T0 constants `VncModel/Gen/C15.lean`.
+
+What is modelled: rfbShowCursor / rfbHideCursor with the exact clipping arithmetic and the
+save / paint (mask and alpha path) / restore loops, every buffer access checked (an access outside
+`frameBuffer` or `underCursorBuffer` makes the operation `none`); `underCursorBuffer` (re)allocation;
+rfbRedrawAfterHideCursor via sraClipRect2; the bracket show – encode – hide of
+rfbSendFramebufferUpdate including the `updateFailed` path; rfbSendCursorShape / rfbSendCursorPos;
+rfbDefaultPtrAddEvent; rfbSetCursor; FramebufferUpdateRequest; the conversions between X and rich
+cursors.  Regions are pixel sets (C11), pixels are opaque values of `bpp` bytes.
+
+**The model is the REPAIRED code** (`Variant.fixed`): the unchanged code violates the property in
+two places (`fixes/C15-cursor-clip.diff`, `fixes/C15-xcursor-colour.diff`); the original behaviour
+is `Variant.orig`, kept executable, and refuted below (`orig_clip_drops_last_column`,
+`orig_xcursor_colour_unscaled`).  Theorems that hold for both are stated for every `v : Variant`.
+
+Quantifiers: every screen size, every cursor (any size incl. 0×0 and 1×1, any mask / rich / alpha
+data, any hot-spot, also outside the bitmap), every pointer position (all naturals, so all of
+0..65535, cursor on / partly / wholly off-screen), every history of operations.
+
+Partial (see docs/C15.md): the alpha path is characterised by the model's own `blend` arithmetic;
+the cursor conversions have no theorem beyond well-formedness (sizes).
+-/
 namespace VncModel.Props.C15
+open VncModel.Cursor VncModel.Gen.C15
+
+/-! ## 1. show ; hide is the identity, without out-of-bounds accesses -/
+
+/-- **hide_show_id**: for every screen, cursor, hot-spot and position, rfbShowCursor followed by
+rfbHideCursor (same client position) succeeds — i.e. performs no access outside the framebuffer or
+underCursorBuffer — and leaves the framebuffer exactly as it was.  Holds for the original and the
+repaired clipping. -/
+theorem hide_show_id (v : Variant) (s : Screen) (hs : s.WF) (cx cy : Nat) :
+    ∃ s1 s2, showCursor v s cx cy = some s1 ∧ hideCursor v s1 cx cy = some s2 ∧ s2.fb = s.fb := by
+  obtain ⟨s1, h1⟩ := show_ok v hs cx cy
+  obtain ⟨s2, h2, e⟩ := hide_after_show hs h1
+  exact ⟨s1, s2, h1, h2, by rw [e]⟩
+
+/-- **no_oob**: every index touched by show and by the following hide is inside its buffer (all
+accesses of the model are checked; `some` = none was out of bounds); the pixel buffer the model
+checks against has exactly the C buffer's extent (`pixel_range_iff_byte_range`). -/
+theorem no_oob (v : Variant) (s : Screen) (hs : s.WF) (cx cy : Nat) :
+    ∃ s1, showCursor v s cx cy = some s1 ∧ ∃ s2, hideCursor v s1 cx cy = some s2 := by
+  obtain ⟨s1, s2, h1, h2, _⟩ := hide_show_id v s hs cx cy
+  exact ⟨s1, h1, s2, h2⟩
+
+/-- a range of `n` pixels starting at pixel `p` lies inside a buffer of `size` pixels iff the byte
+range `[p*bpp, p*bpp + n*bpp)` lies inside the `size*bpp` bytes of the C buffer -/
+theorem pixel_range_iff_byte_range (bpp size p n : Nat) (hb : 0 < bpp) :
+    p + n ≤ size ↔ p * bpp + n * bpp ≤ size * bpp := by
+  rw [← Nat.add_mul]
+  exact (Nat.mul_le_mul_right_iff hb).symm
+
+/-- the save buffer is (re)allocated large enough for the whole cursor before it is used -/
+theorem under_buffer_large_enough (s : Screen) (c : Cursor) (hb : 0 < s.bpp) :
+    c.w * c.h * s.bpp ≤ (growUnder s c).underLen := by
+  unfold Screen.underLen
+  have := growUnder_size s c hb
+  rw [(growUnder_fields s c).2.2.1]
+  exact Nat.mul_le_mul_right _ this
+
+example : ∃ s : Screen, s.WF ∧ s.cursor.isSome ∧ 0 < s.w :=
+  ⟨{ w := 3, h := 2, bpp := 4, fmt := ⟨255, 255, 255, 0, 8, 16⟩, fb := #[0, 0, 0, 0, 0, 0], under := #[],
+     cursor := some { w := 1, h := 1, xhot := 0, yhot := 0, mask := #[0x80], source := none,
+                      rich := some #[9], alpha := none, premult := false, foreR := 0, foreG := 0,
+                      foreB := 0, backR := 0, backG := 0, backB := 0 },
+     curX := 0, curY := 0 },
+   ⟨rfl, by decide, by
+      intro c hc
+      simp only [Option.some.injEq] at hc
+      subst hc
+      exact ⟨rfl, by intro r h; simp at h; subst h; rfl, by intro r h; simp at h,
+             by intro r h; simp at h, Or.inl (by simp)⟩⟩,
+   rfl, by decide⟩
+
+/-! ## 2. the bracket in rfbSendFramebufferUpdate, including failure -/
+
+/-- **update_restores_framebuffer**: after rfbUpdateClient / rfbSendFramebufferUpdate for any
+client — whether an update was sent, nothing had to be sent, or the write failed after the cursor
+had been painted — the application's framebuffer is bit-identical to what it was before. -/
+theorem update_restores_framebuffer (v : Variant) (s s' : Sess) (c : Client) (o : Option UpdObs)
+    (hs : s.scr.WF) (h : sendUpdate v s c = some (s', o)) : s'.scr.fb = s.scr.fb :=
+  sendUpdate_fb hs h
+
+/-- the failure case spelled out: the write to this client fails; the update reports failure, the
+client is dropped — and the framebuffer is restored all the same -/
+theorem update_failed_restores_framebuffer (v : Variant) (s s' : Sess) (c : Client) (obs : UpdObs)
+    (hs : s.scr.WF) (hfail : s.failArmed = some c.id) (h : sendUpdate v s c = some (s', some obs)) :
+    obs.res = false ∧ s'.scr.fb = s.scr.fb ∧ obs.after = obs.before ∧
+    s'.clients = s.clients.filter (fun d => d.id != c.id) := by
+  rcases sendUpdate_cases h with ⟨_, _, e⟩ | ⟨_, scr2, scr3, m, obs', hb, hscr, e, _, _, hbef, haft, _, hres, _, hcl⟩
+  · simp at e
+  · simp only [Option.some.injEq] at e; subst e
+    have hfb := (bracket_restores hs hb).1
+    refine ⟨by rw [hres, hfail]; simp, by rw [hscr]; exact hfb, by rw [haft, hbef, hfb], ?_⟩
+    rw [hcl, hfail]; simp
+
+/-- for soft-cursor clients the whole update (show, hide) is free of out-of-bounds accesses -/
+theorem update_no_oob (v : Variant) (s : Sess) (c : Client) (hs : s.scr.WF) (hsh : c.shape = false) :
+    ∃ r, sendUpdate v s c = some r :=
+  sendUpdate_soft_ok v hs hsh
+
+/-- whole event-loop rounds over whole histories: `SessInv` (Invariant.lean) is preserved by every
+operation, and it contains well-formedness; so after any history of operations every update
+restores the framebuffer.  See `history_invariant` below. -/
+theorem pump_restores_framebuffer (v : Variant) (s s' : Sess) (obs : List UpdObs)
+    (hs : SessWF s) (h : pump v s = some (s', obs)) : s'.scr.fb = s.scr.fb ∧ SessWF s' :=
+  pump_fb hs h
+
+/-! ## 3. what is painted -/
+
+/-- **painted_eq_overlay** (repaired clipping): after rfbShowCursor every screen pixel `(x,y)` is
+the old pixel if it is not under the cursor bitmap (hot-spot at the client's pointer position), and
+otherwise the cursor's pixel laid over it — mask bit set: the cursor's pixel, clear: the old pixel;
+alpha cursors: `blend`.  "Clipped to the screen" is all the clipping there is. -/
+theorem painted_eq_overlay (s s1 : Screen) (hs : s.WF) (cx cy : Nat)
+    (h : showCursor Variant.fixed s cx cy = some s1) (c : Cursor) (hc : s.cursor = some c)
+    (rich : Array Px) (hr : richOf Variant.fixed s.fmt s.bpp c = some rich)
+    (x y : Nat) (hx : x < s.w) (hy : y < s.h) :
+    ∃ old, s.fb[y * s.w + x]? = some old ∧
+      s1.fb[y * s.w + x]? =
+        (if inCursorBox c cx cy x y then
+           cursorPixel s.fmt s.bpp c rich ((x:Int) - ((cx:Int) - c.xhot)).toNat ((y:Int) - ((cy:Int) - c.yhot)).toNat old
+         else some old) := by
+  have hlt : y * s.w + x < s.fb.size := by rw [hs.fbSz, Nat.mul_comm s.w s.h]; exact lin_lt hy hx
+  refine ⟨s.fb[y * s.w + x], Array.getElem?_eq_getElem hlt, ?_⟩
+  rw [show_overlay hs h hc hr hx hy, Array.getElem?_eq_getElem hlt, Option.bind_some]
+  unfold overlayAt effLimit
+  simp only [Variant.fixed, if_true]
+  by_cases hin : inCursorBox c cx cy x y
+  · rw [if_pos hin]
+    obtain ⟨h1, h2, h3, h4⟩ := hin
+    rw [if_pos ⟨h1, h2, by omega, h3, h4, by omega⟩]
+  · rw [if_neg hin, if_neg (fun h' => hin ⟨h'.1, h'.2.1, h'.2.2.2.1, h'.2.2.2.2.1⟩)]
+
+/-- **painted_eq_overlay_reduced_clip** (any variant): the same with the variant's limits — for
+the ORIGINAL clipping the overlay is restricted to `x < width-1`, `y < height-1`: the last
+column and the last row are never painted (§11-f). -/
+theorem painted_eq_overlay_reduced_clip (v : Variant) (s s1 : Screen) (hs : s.WF) (cx cy : Nat)
+    (h : showCursor v s cx cy = some s1) (c : Cursor) (hc : s.cursor = some c)
+    (rich : Array Px) (hr : richOf v s.fmt s.bpp c = some rich)
+    (x y : Nat) (hx : x < s.w) (hy : y < s.h) :
+    s1.fb[y * s.w + x]? = (s.fb[y * s.w + x]?).bind
+      (overlayAt s.fmt s.bpp c rich (effLimit v.clipFixed s.w) (effLimit v.clipFixed s.h) cx cy x y) :=
+  show_overlay hs h hc hr hx hy
+
+/-- without a cursor nothing is painted -/
+theorem painted_nothing_without_cursor (v : Variant) (s s1 : Screen) (cx cy : Nat)
+    (h : showCursor v s cx cy = some s1) (hc : s.cursor = none) : s1 = s :=
+  show_noCursor h hc
+
+/-- **the original clipping violates the property**: with the pointer at `(2,0)` the cursor lies
+entirely on the screen (in the last column); the original code paints nothing, the repaired code
+paints the pixel.  (Replayed on the real code: corpus/C15/clip-last-column.ops.) -/
+theorem orig_clip_drops_last_column :
+    (showCursor Variant.orig witnessScreen 2 0).map (·.fb) = some #[0, 0, 0, 0, 0, 0] ∧
+    (showCursor Variant.fixed witnessScreen 2 0).map (·.fb) = some #[0, 0, 9, 0, 0, 0] := by
+  constructor <;> rfl
+
+/-- **the original X-cursor colour conversion violates the property**: a pure red foreground
+(0xffff,0,0) on the 32-bit format (shifts 0/8/16, max 255) becomes 0x00ffff — red *and* green —
+in the original rfbMakeRichCursorFromXCursor; the repaired code yields 0x0000ff.
+(Replayed on the real code: corpus/C15/xcursor-colour.ops.) -/
+theorem orig_xcursor_colour_unscaled :
+    xColour Variant.orig ⟨255, 255, 255, 0, 8, 16⟩ 4 0xffff 0 0 = 0xffff ∧
+    xColour Variant.fixed ⟨255, 255, 255, 0, 8, 16⟩ 4 0xffff 0 0 = 0xff := by
+  constructor <;> rfl
+
+/-! ## 4. the region marked for redraw -/
+
+/-- **dirty_covers_old_and_new**: when the pointer has moved since a soft-cursor client's last
+update, the update that is sent covers every screen pixel under the cursor bitmap at the old
+position and at the new one (and all modified pixels that were requested). -/
+theorem dirty_covers_old_and_new (v : Variant) (s s' : Sess) (c : Client) (obs : UpdObs) (cur : Cursor)
+    (h : sendUpdate v s c = some (s', some obs)) (hcur : s.scr.cursor = some cur)
+    (hm : softMoved s c = true) (x y : Nat) (hx : x < s.scr.w) (hy : y < s.scr.h) :
+    ((inCursorBox cur c.curX c.curY x y ∨ inCursorBox cur s.scr.curX s.scr.curY x y) →
+        obs.upd.mem s.scr.w x y = true) ∧
+    (c.modified.mem s.scr.w x y = true → c.requested.mem s.scr.w x y = true →
+        obs.upd.mem s.scr.w x y = true) := by
+  rcases sendUpdate_cases h with ⟨_, _, e⟩ | ⟨_, _, _, _, obs', _, _, e, hupd, _⟩
+  · simp at e
+  · simp only [Option.some.injEq] at e; subst e
+    rw [hupd]
+    exact ⟨updRegion_covers_boxes hcur hm hx hy, updRegion_covers_modified hx hy⟩
+
+/-- the pointer of a soft-cursor client that lags behind makes an update pending and, with a
+request outstanding, that update is really sent -/
+theorem moved_pointer_is_sent (s : Sess) (c : Client) (hm : softMoved s c = true)
+    (hreq : c.requested.nonempty = true) : willSend s c = true := by
+  unfold softMoved at hm
+  unfold willSend pending
+  cases hsh : c.shape <;> simp_all
+
+/-! ## 5. cursor pseudo-rectangles -/
+
+/-- **shape_msg_exact**: the rectangle rfbSendCursorShape emits for an installed cursor `c0`:
+the cursor `c` actually sent has `c0`'s size, hot-spot and mask (conversion only adds the missing
+representation); it is either the "no cursor" rectangle (1×1 with empty mask: all-zero header) or
+header `x=xhot y=yhot w h encoding` followed by exactly — RichCursor: the `w*h` pixels (`bpp`
+bytes each) then the `⌈w/8⌉*h` mask bytes; XCursor: 6 colour bytes (high bytes of fore R,G,B and
+back R,G,B), the `⌈w/8⌉*h` bitmap bytes, the mask bytes. -/
+theorem shape_msg_exact (v : Variant) (s s' : Screen) (useRich : Bool) (m : List UInt8) (c0 : Cursor)
+    (hc0 : s.cursor = some c0) (hwf : c0.WF) (h : cursorShapeRect v s useRich = some (s', m)) :
+    ∃ c, s'.cursor = some c ∧ c.w = c0.w ∧ c.h = c0.h ∧ c.xhot = c0.xhot ∧ c.yhot = c0.yhot ∧
+      c.mask = c0.mask ∧
+      ((isEmptyCursor c = some true ∧ m = rectHeader 0 0 0 0 (if useRich then encRichCursor else encXCursor)) ∨
+       (isEmptyCursor c = some false ∧ ∃ pl,
+          m = rectHeader c.xhot c.yhot c.w c.h (if useRich then encRichCursor else encXCursor) ++ pl ∧
+          (useRich = true → ∃ rich, c.rich = some rich ∧ richOf v s.fmt s.bpp c0 = some rich ∧
+              pl = rich.toList.flatMap (pxBytes s.bpp) ++ c.mask.toList ∧
+              pl.length = c.w * c.h * s.bpp + rowBytes c.w * c.h) ∧
+          (useRich = false → ∃ src, c.source = some src ∧
+              pl = [UInt8.ofNat (c.foreR / 256), UInt8.ofNat (c.foreG / 256), UInt8.ofNat (c.foreB / 256),
+                    UInt8.ofNat (c.backR / 256), UInt8.ofNat (c.backG / 256), UInt8.ofNat (c.backB / 256)]
+                   ++ src.toList ++ c.mask.toList ∧
+              pl.length = sz_rfbXCursorColors + 2 * (rowBytes c.w * c.h)))) := by
+  unfold cursorShapeRect at h
+  obtain ⟨⟨c', m'⟩, hcore, e⟩ := Option.map_eq_some_iff.mp h
+  simp only [Prod.mk.injEq] at e
+  obtain ⟨rfl, rfl⟩ := e
+  rw [hc0] at hcore
+  obtain ⟨c, rfl, hconv, hcase⟩ := shapeCore_some hcore
+  obtain ⟨g1, g2, g3, g4, g5, _, _, g8, _⟩ := convertFor_geom hconv
+  have hcwf := convertFor_wf hwf hconv
+  refine ⟨c, rfl, g1, g2, g3, g4, g5, ?_⟩
+  rcases hcase with ⟨he, hm⟩ | ⟨he, _, pl, hpl, hm⟩
+  · exact Or.inl ⟨he, hm⟩
+  · obtain ⟨p1, p2⟩ := shapePayload_exact hcwf hpl
+    refine Or.inr ⟨he, pl, hm, fun hr => ?_, p2⟩
+    obtain ⟨rich, hrich, hpl', hlen⟩ := p1 hr
+    exact ⟨rich, hrich, by rw [← (g8 hr).1]; exact hrich, hpl', hlen⟩
+
+/-- without an installed cursor the all-zero cursor rectangle is sent -/
+theorem shape_msg_no_cursor (v : Variant) (s : Screen) (useRich : Bool) (hc : s.cursor = none) :
+    cursorShapeRect v s useRich =
+      some ({ s with cursor := none }, rectHeader 0 0 0 0 (if useRich then encRichCursor else encXCursor)) := by
+  unfold cursorShapeRect
+  rw [hc, shapeCore_none]; rfl
+
+/-- **shape_fits**: cursors up to 64×64 at up to 4 bytes per pixel fit `UPDATE_BUF_SIZE`
+(regenerated constant), so the `return FALSE /* FIXME */` path is outside the property's range -/
+theorem shape_fits (bpp : Nat) (useRich : Bool) (c : Cursor) (hw : c.w ≤ 64) (hh : c.h ≤ 64) (hb : bpp ≤ 4) :
+    shapeFits bpp useRich c = true :=
+  shapeFits_of_le hw hh hb
+
+/-- the rectangle header is 12 bytes; rfbSendCursorPos sends the *screen's* pointer position with
+zero size and the PointerPos pseudo-encoding -/
+theorem pos_msg_exact (s : Screen) :
+    cursorPosRect s = rectHeader s.curX s.curY 0 0 encPointerPos ∧ (cursorPosRect s).length = 12 :=
+  ⟨rfl, rectHeader_length _ _ _ _ _⟩
+
+/-! ## 6. pointer movement and the other clients -/
+
+/-- **pos_update_to_others** (flags): an accepted PointerEvent that changes the position sets the
+screen's pointer to the new position, flags every *other* client with PointerPos support and
+clears the flag of the sender. -/
+theorem pos_update_to_others (s : Sess) (id x y b : Nat)
+    (hacc : s.pointerClient = none ∨ s.pointerClient = some id)
+    (hmv : x ≠ s.scr.curX ∨ y ≠ s.scr.curY) :
+    (ptrEvent s id x y b).scr.curX = x ∧ (ptrEvent s id x y b).scr.curY = y ∧
+    ∀ c ∈ (ptrEvent s id x y b).clients, c.posUpd = true → c.wasMoved = (c.id != id) := by
+  obtain ⟨h1, h2, h3⟩ := ptrEvent_moves (b := b) hacc hmv
+  refine ⟨h1, h2, fun c hc hp => ?_⟩
+  rw [h3] at hc
+  obtain ⟨d, _, rfl⟩ := List.mem_map.mp hc
+  by_cases hid : d.id = id
+  · simp only [hid, beq_self_eq_true, if_true] at hp ⊢
+    by_cases hd : d.posUpd = true
+    · simp [hd]
+    · simp [hd] at hp
+  · have hne : (d.id == id) = false := by simp [hid]
+    simp only [hne, Bool.false_eq_true, if_false] at hp ⊢
+    by_cases hd : d.posUpd = true
+    · simp [hd, hid]
+    · simp [hd] at hp
+
+/-- **pos_update_to_others** (message): a flagged client with an outstanding request gets, in its
+next update, a PointerPos rectangle carrying the screen's current pointer position; the flag is
+cleared. -/
+theorem pos_update_sent (v : Variant) (s s' : Sess) (c : Client) (o : Option UpdObs) (hs : s.scr.WF)
+    (hp : c.posUpd = true) (hmv : c.wasMoved = true) (hreq : c.requested.nonempty = true)
+    (hlive : s.failArmed ≠ some c.id) (h : sendUpdate v s c = some (s', o)) :
+    ∃ obs, o = some obs ∧ obs.pos = some (rectHeader s.scr.curX s.scr.curY 0 0 encPointerPos) ∧
+      ∀ d ∈ s'.clients, d.id = c.id → d.wasMoved = false := by
+  have hw : willSend s c = true := by
+    unfold willSend pending; simp [hp, hmv, hreq]
+  rcases sendUpdate_cases h with ⟨hw', _, _⟩ | ⟨_, scr2, scr3, m, obs, hb, _, e, _, _, _, _, _, _, hpos, hcl⟩
+  · rw [hw] at hw'; simp at hw'
+  · obtain ⟨_, _, g3, g4⟩ := bracket_scr2 hs hb
+    refine ⟨obs, e, ?_, ?_⟩
+    · rw [hpos]; simp [hp, hmv, cursorPosRect, g3, g4]
+    · intro d hd hid
+      have : (s.failArmed == some c.id) = false := by simp [hlive]
+      rw [hcl, this] at hd
+      simp only [Bool.false_eq_true, if_false] at hd
+      obtain ⟨d0, _, rfl⟩ := List.mem_map.mp hd
+      by_cases h0 : d0.id = c.id
+      · simp [h0, clientAfter, hp, hmv]
+      · simp [h0] at hid
+
+/-- a PointerEvent from a client other than the one holding a button is ignored altogether -/
+theorem ptr_event_ignored_while_other_holds_button (s : Sess) (id p x y b : Nat)
+    (h : s.pointerClient = some p) (hne : p ≠ id) : ptrEvent s id x y b = s :=
+  ptrEvent_ignored h hne
+
+/-! ## 7. the client's picture, over whole histories -/
+
+/-- **history_invariant**: start from any well-formed screen with no clients and apply any
+history of operations — clients connecting (raw / XCursor / RichCursor), pointer events of any
+client at any position, update requests, application drawing, cursor replacement (any well-formed
+cursor or none), event-loop rounds with or without an injected write failure.  Then (as long as no
+cursor conversion for a cursor-shape client fails) the session invariant `SessInv` holds at the
+end: the screen is well-formed and for every client and every screen pixel, EITHER the pixel is in
+the client's pending `modifiedRegion` (it will be sent with the next covering request) OR the
+client's picture shows there: the framebuffer with the cursor's masked pixels laid over it at the
+client's pointer position (soft-cursor clients) / the plain framebuffer (cursor-shape clients).
+Together with `dirty_covers_old_and_new` (the client's pointer position catches up with the
+screen's in every update, old and new box being resent) this is "the client's picture equals the
+framebuffer with the cursor laid over it, following the pointer when it moves". -/
+theorem history_invariant (s0 : Sess) (hs0 : s0.scr.WF) (hc0 : s0.clients = []) (ops : List Op)
+    (s : Sess) (h : runOps Variant.fixed s0 ops = some s) : SessInv Variant.fixed s :=
+  runOps_inv (sessInv_init hs0 hc0) h
+
+example : ∃ ops : List Op, ops.length = 6 ∧
+    (runOps Variant.fixed ⟨witnessScreen, [], none, none⟩ ops).isSome := by
+  refine ⟨[.client 0 .raw, .client 1 .x, .ptr 0 2 0 0, .req 0 true ⟨0, 0, 3, 2⟩, .req 1 false ⟨0, 0, 3, 2⟩, .pump],
+    rfl, ?_⟩
+  decide +kernel
+
 end VncModel.Props.C15
